@@ -450,8 +450,19 @@ def neighbour_angles(ctx):
             src = arr[tuple(i)]
             arr[tuple(j)] = {"same": src, "opposite": -src, "scaled": 3.7 * src,
                              "near": src + 1e-9 * rng.normal(size=3)}[how]
-    lengths = gen.pick(rng, ["any", "any", "unit", "nearly_unit", "single_precision_unit"])
-    if lengths == "any":
+    lengths = gen.pick(rng, ["any", "any", "unit", "nearly_unit", "single_precision_unit",
+                             "narrow_integers"])
+    kwdt = {}
+    if lengths == "narrow_integers":
+        # whole numbers stored in a narrow integer type, up to that type's range: the angle
+        # is between the unit vectors, which are real
+        dt = gen.pick(rng, [np.int8, np.int16, np.int32, np.int32])
+        top = np.iinfo(dt).max
+        arr = np.round(unit(arr) * rng.uniform(0.3, 1.0, size=(*n, 1)) * top).astype(dt)
+        arr[np.all(arr == 0, axis=-1)] = 1
+        kwdt["dtype"] = dt
+        arr = arr.astype(float)
+    elif lengths == "any":
         arr = arr * 10.0 ** rng.uniform(-3, 3, size=(*n, 1))
     elif lengths == "unit":
         arr = unit(arr)
@@ -460,10 +471,10 @@ def neighbour_angles(ctx):
         arr = unit(arr) * (1 + 10.0 ** rng.uniform(-7, -5) * rng.uniform(-1, 1, size=(*n, 1)))
     else:
         arr = unit(arr).astype(np.float32).astype(float)
-    f = df.Field(mesh, nvdim=3, value=arr, vdims=gen.pick(rng, [None, ["a", "b", "c"]]))
+    f = df.Field(mesh, nvdim=3, value=arr, vdims=gen.pick(rng, [None, ["a", "b", "c"]]), **kwdt)
     u = unit(arr)
     info = {"tool": "neighbouring_cell_angle", "n": n, "cell": cell, "pmin": pmin, "dims": dnames,
-            "vector_lengths": lengths}
+            "vector_lengths": lengths, "dtype": str(f.array.dtype)}
     per_axis = []
     for ax, direction in enumerate(dnames):
         sl1 = [slice(None)] * 3
@@ -572,6 +583,22 @@ def demag(ctx):
     pmin = rng.uniform(-3, 3, 3) * cell * n if rng.random() < 0.7 else np.zeros(3)
     mesh = df.Mesh(p1=pmin.tolist(), p2=(pmin + cell * n).tolist(), n=[int(k) for k in n])
     base = {"cubic_cells": bool(cubic), "cell": cell, "n": n, "pmin": pmin}
+    if rng.random() < 0.35:
+        # history: the mesh object had another cell shape when the tensor was asked for the
+        # first time and was then rescaled in place (about the origin) to the shape under test
+        fac = rng.uniform(0.3, 3.0, 3) * rng.choice([1.0, 2.0, 0.5])
+        mesh = df.Mesh(p1=(pmin / fac).tolist(), p2=((pmin + cell * n) / fac).tolist(),
+                       n=[int(k) for k in n])
+        try:
+            dft.demag_tensor(mesh)
+            if int(np.prod(2 * n - 1)) <= 100:
+                from discretisedfield.tools.tools import _demag_tensor_field_based as _fb
+                _fb(mesh)
+        except Exception:  # noqa: BLE001 - judged below, on the mesh under test
+            pass
+        mesh.scale(fac.tolist(), reference_point=[0.0, 0.0, 0.0], inplace=True)
+        base["history"] = "tensor computed once before the mesh was rescaled in place"
+        ctx.event("demag.mesh_rescaled_in_place_after_first_use")
 
     tensor = dft.demag_tensor(mesh)
     N = 2 * n - 1
